@@ -49,6 +49,13 @@ structure Attr where
   redeclOf : Option String := none               -- `SELF\\sup.name : ty` — the supertype named in the redeclaration
   deriving Repr, DecidableEq
 
+/-- an actual parameter of a call -/
+inductive CallArg
+  | lit                                           -- a literal
+  | bare (n : String)                             -- a bare identifier
+  | selfAttr (a : String)                         -- `SELF.a`
+  deriving Repr, DecidableEq
+
 /-- something inside a domain rule -/
 inductive RuleItem
   | call (fn : String) (argc : Nat)               -- `fn(SELF.…, …)`, SELF occurs only inside the arguments
@@ -56,6 +63,8 @@ inductive RuleItem
   | bareAttr (attr : String)                      -- `attr` (no SELF): found through `VARfind` = own and inherited attributes
   | badGroup (attr : String)                      -- `SELF.x\ent.attr` with `x` of a non-entity type: group reference of an unusual expression
   | smallReal (shown : String)                    -- a REAL literal with |x| ≤ FLT_MIN; `shown` = its `%f` rendering
+  | dot (attr field : String) (indexed : Bool)    -- `SELF.attr.field` / `SELF.attr[1].field`: attribute reference on an operand of any type
+  | callWith (fn : String) (args : List CallArg)  -- `fn(a1, …, an)`: the arguments are resolved left to right until one fails
   deriving Repr, DecidableEq
 
 /-- an expression with the line it is reported on.  `isWhere`: it is a domain (WHERE) rule of an entity or type — the only
@@ -179,6 +188,7 @@ def builtinArity (n : String) : Option Nat := (ResolveGen.builtins.find? (·.1 =
 
 def sev (code : Nat) : Nat := Diag.severityOf code
 def isErrorCode (code : Nat) : Bool := decide (sev code ≥ LibErrors.SEVERITY_ERROR)
+def hasError (ds : List Diag) : Bool := ds.any fun d => isErrorCode d.code
 
 def mk (path : String) (code line : Nat) (args : List Arg) : Diag := ⟨code, path.toList, line, args, .symbol⟩
 def sArg (s : String) : Arg := .str s.toList
@@ -589,6 +599,102 @@ def ownsAttr (s : Schema) (an : String) (en : String) : Bool :=
 def varFind (s : Schema) (an : String) (fuel : Nat) (en : String) : Bool :=
   (upClosure (superGraph s) fuel [en]).any (ownsAttr s an)
 
+/-- sub/supertype links in both directions -/
+def linkGraph (s : Schema) (n : String) : List String := superGraph s n ++ subGraph s n
+
+/-- `ENTITYfind_inherited_attribute( e, name, &down )` (the search behind `x.name`): the entity, its supertypes and — `down` — the
+    subtypes of everything it visits, one visit per entity: some entity connected to `en` through sub/supertype links declares it -/
+def linkFind (s : Schema) (field : String) (fuel : Nat) (en : String) : Bool :=
+  (upClosure (linkGraph s) fuel [en]).any (ownsAttr s field)
+
+/-- is the named type an enumeration (also behind renamings `TYPE t2 = t1`) -/
+def isEnumType (s : Schema) : Nat → String → Bool
+  | 0, _ => false
+  | k + 1, n =>
+    match findType s n with
+    | some td =>
+      (match td.body with
+       | .enum _ => true
+       | .ref (.named m _) => isEnumType s k m
+       | _ => false)
+    | none => false
+
+/-- what `op1type->u.type->body->type` is for the operand of `.` -/
+inductive OperandKind
+  | simple
+  | aggregate
+  | entity (n : String)
+  | enumeration (tn : String) (items : List (String × Nat))
+  | select (items : List (String × Nat))
+  | unknown
+  deriving Repr, DecidableEq
+
+def operandKind (s : Schema) : Nat → TypeRef → OperandKind
+  | _, .simple => .simple
+  | _, .aggr _ => .aggregate
+  | 0, .named _ _ => .unknown
+  | k + 1, .named n _ =>
+    if isEntity s n then .entity n
+    else match findType s n with
+      | some td =>
+        (match td.body with
+         | .select items => .select items
+         | .enum items => .enumeration n items
+         | .ref r =>
+           (match operandKind s k r with
+            | .enumeration _ _ => .enumeration n []     -- a renamed enumeration: reported under the new name, has no items of its own
+            | kd => kd))
+      | none => .unknown
+
+/-- `EXP_resolve_op_dot_fuzzy` found the name in some member of the select (entities: `linkFind`; enumerations: an item; nested
+    selects: their members) -/
+def selectHas (s : Schema) (field : String) : Nat → List (String × Nat) → Bool
+  | 0, _ => false
+  | k + 1, items => items.any fun i =>
+      match operandKind s (s.decls.length + 1) (.named i.1 i.2) with
+      | .entity n => linkFind s field (s.decls.length + 1) n
+      | .enumeration _ its => its.any (·.1 = field)
+      | .select its => selectHas s field k its
+      | _ => false
+
+/-- the type of attribute `attr` as seen from entity `en` (own or inherited) -/
+def attrTypeOf (s : Schema) (fuel : Nat) (en attr : String) : Option TypeRef :=
+  (upClosure (superGraph s) fuel [en]).findSome? fun x =>
+    (findEntity s x).bind fun e => (e.attrs.find? (·.name = attr)).map (·.ty)
+
+/-- `EXPresolve_op_dot`: `operand.field`, by the kind of the operand's type.  In the select branch, when no member knows the
+    name: the (default-silent) warning CASE_SKIP_LABEL if EVERY member of the select is an enumeration, the error UNDEFINED_ATTR
+    otherwise — a conjunction over the member list, so the order of the members does not matter -/
+def operandDiags (path : String) (s : Schema) (fuel : Nat) (r : Rule) (field : String) (t : TypeRef) : List Diag :=
+  match operandKind s fuel t with
+  | .simple => [mk path LibErrors.ATTRIBUTE_REF_FROM_NON_ENTITY r.line [sArg field]]
+  | .aggregate => [mk path LibErrors.ATTRIBUTE_REF_ON_AGGREGATE r.line [sArg field]]
+  | .entity n => if linkFind s field fuel n then [] else [mk path LibErrors.UNKNOWN_ATTR_IN_ENTITY r.line [sArg field, sArg n]]
+  | .enumeration tn items =>
+    if items.any (·.1 = field) then [] else [mk path LibErrors.ENUM_NO_SUCH_ITEM r.line [sArg tn, sArg field]]
+  | .select items =>
+    if selectHas s field fuel items then []
+    else if items.all (fun i => isEnumType s fuel i.1) then [mk path LibErrors.CASE_SKIP_LABEL r.line [sArg field]]
+    else [mk path LibErrors.UNDEFINED_ATTR r.line [sArg field]]
+  | .unknown => []
+
+/-- the operand of `SELF.attr.field` / `SELF.attr[1].field` -/
+def dotOperand (ty : TypeRef) (indexed : Bool) : TypeRef :=
+  if indexed then (match ty with | .aggr b => b | t => t) else ty
+
+def dotDiags (path : String) (s : Schema) (fuel : Nat) (e : Entity) (r : Rule) (attr field : String) (indexed : Bool) : List Diag :=
+  match attrTypeOf s fuel e.name attr with
+  | none => [mk path LibErrors.UNKNOWN_ATTR_IN_ENTITY r.line [sArg attr, sArg e.name]]
+  | some ty => operandDiags path s fuel r field (dotOperand ty indexed)
+
+/-- the arguments of a call: resolved left to right; the first one that fails ends the walk (`resolve_failed( expr ); break;`).
+    Result: the diagnostics, and whether a resolved argument referred to SELF or an attribute -/
+def argsRun (diagsOf : CallArg → List Diag) (sees : CallArg → Bool) : List CallArg → List Diag × Bool
+  | [] => ([], false)
+  | a :: as =>
+    if hasError (diagsOf a) then (diagsOf a, sees a)
+    else ((diagsOf a) ++ (argsRun diagsOf sees as).1, sees a || (argsRun diagsOf sees as).2)
+
 /-- `ENTITYfind_inherited_entity( e, name, 0 )`: is `name` a proper ancestor of `en` (within `fuel` levels) -/
 def isAncestor (s : Schema) (name : String) : Nat → String → Bool
   | 0, _ => false
@@ -736,6 +842,35 @@ def redeclDiags (path : String) (s : Schema) (fuel : Nat) (e : Entity) : List Di
                      else [mk path LibErrors.REDECL_NO_SUCH_ATTR a.line [sArg a.name, sArg sup]]
         | none => []
 
+/-- one actual parameter in entity scope -/
+def argDiags (path : String) (env : Env) (s : Schema) (fuel : Nat) (e : Entity) (r : Rule) : CallArg → List Diag
+  | .lit => []
+  | .bare n =>
+    if varFind s n fuel e.name then []
+    else (match globalRef path env s r n with
+      | some ds => ds
+      | none => [mk path LibErrors.UNDEFINED r.line [sArg n]])
+  | .selfAttr a =>
+    (match namedAttr s a fuel e.name with
+     | some true => []
+     | _ => [mk path LibErrors.UNKNOWN_ATTR_IN_ENTITY r.line [sArg a, sArg e.name]])
+
+def argSeesSelf (s : Schema) (fuel : Nat) (e : Entity) : CallArg → Bool
+  | .lit => false
+  | .bare n => varFind s n fuel e.name
+  | .selfAttr _ => true
+
+def knownFunc (s : Schema) (fn : String) : Bool := (findFunc s fn).isSome || (builtinArity fn).isSome
+
+/-- a call with its argument list: the count check (`callDiags`: WRONG_ARG_COUNT quotes the number of arguments WRITTEN, whatever
+    happens to them afterwards), then the arguments; an undefined function leaves them unresolved -/
+def callWithDiags (path : String) (env : Env) (s : Schema) (fuel : Nat) (e : Entity) (r : Rule) (fn : String)
+    (args : List CallArg) : List Diag :=
+  if knownFunc s fn then
+    callDiags path s r fn args.length ++ (argsRun (argDiags path env s fuel e r) (argSeesSelf s fuel e) args).1 ++
+      (if (argsRun (argDiags path env s fuel e r) (argSeesSelf s fuel e) args).2 then [] else missingSelf path r)
+  else callDiags path s r fn args.length
+
 /-- one item of a domain rule of entity `e` -/
 def ruleItemDiags (path : String) (env : Env) (s : Schema) (fuel : Nat) (e : Entity) (r : Rule) : RuleItem → List Diag
   | .call fn argc => callDiags path s r fn argc
@@ -752,6 +887,8 @@ def ruleItemDiags (path : String) (env : Env) (s : Schema) (fuel : Nat) (e : Ent
     [mk path LibErrors.GROUP_REF_UNEXPECTED_TYPE r.line [.str "<expression>".toList],
      mk path LibErrors.ATTRIBUTE_REF_FROM_NON_ENTITY r.line [sArg an]]
   | .smallReal _ => []
+  | .dot attr field indexed => dotDiags path s fuel e r attr field indexed
+  | .callWith fn args => callWithDiags path env s fuel e r fn args
 
 def ruleDiags (path : String) (env : Env) (s : Schema) (fuel : Nat) (e : Entity) : List Diag :=
   e.rules.flatMap fun r => r.items.flatMap (ruleItemDiags path env s fuel e r)
@@ -759,6 +896,15 @@ def ruleDiags (path : String) (env : Env) (s : Schema) (fuel : Nat) (e : Entity)
 /-- `ENTITYresolve_expressions` for one entity -/
 def entityPass5 (path : String) (env : Env) (s : Schema) (fuel : Nat) (e : Entity) : List Diag :=
   overloadDiags path s fuel e ++ redeclDiags path s fuel e ++ ruleDiags path env s fuel e
+
+/-- one actual parameter inside an algorithm -/
+def algArgDiags (path : String) (env : Env) (s : Schema) (f : Func) (r : Rule) : CallArg → List Diag
+  | .bare n =>
+    if n ∈ f.locals then []
+    else (match globalRef path env s r n with
+      | some ds => ds
+      | none => [mk path LibErrors.UNDEFINED r.line [sArg n]])
+  | _ => []
 
 /-- one item of an expression inside FUNCTION / RULE / CONSTANT `f` (no SELF there: `SELF.x` items are not interpreted) -/
 def algItemDiags (path : String) (env : Env) (s : Schema) (f : Func) (r : Rule) : RuleItem → List Diag
@@ -768,6 +914,11 @@ def algItemDiags (path : String) (env : Env) (s : Schema) (f : Func) (r : Rule) 
     else match globalRef path env s r n with
       | some ds => ds
       | none => [mk path LibErrors.UNDEFINED r.line [sArg n]]
+  | .callWith fn args =>
+    if knownFunc s fn then
+      callDiags path s { r with isWhere := false } fn args.length ++
+        (argsRun (algArgDiags path env s f r) (fun _ => false) args).1
+    else callDiags path s { r with isWhere := false } fn args.length
   | _ => []
 
 /-- `ALGresolve_expressions_statements` / `RULEresolve` / constant values: the expressions of every algorithm-like declaration -/
@@ -829,8 +980,6 @@ def verdict (f : File) (lex : List Diag) : Verdict :=
   let p := lex ++ parseDiags f
   let r := resolveDiags f
   ⟨p, r.diags, r.diverges⟩
-
-def hasError (ds : List Diag) : Bool := ds.any fun d => isErrorCode d.code
 
 /-- does the front end report at least one ERROR for the file -/
 def Verdict.rejects (v : Verdict) : Bool :=
